@@ -24,6 +24,7 @@ type Prop struct {
 	Trusted     []string
 	MinObls     int // vacuity guard: at least this many obligations
 	Note        string
+	Claim       string // level_claimed.text of the manifest (defaults to Note)
 }
 
 // Registry of property drivers.
@@ -116,6 +117,14 @@ func Run(P *sx.Program, id, tier string, seed int64, verifDir string, verbose bo
 		units = sel
 	}
 	rep := vc.Check(P.M, units, vc.Config{Timeout: timeout, Verbose: verbose})
+	if verbose {
+		for _, o := range rep.Outcomes {
+			fmt.Printf("  [%s] %s paths=%d size=%d %s %.2fs\n", o.Status, o.Name, o.Paths, o.Size, o.Solver, o.Seconds)
+			if os.Getenv("GOCV_SHOWQ") != "" && o.Query != nil {
+				fmt.Println(o.Query.Render())
+			}
+		}
+	}
 	findings := loadFindings(filepath.Join(verifDir, "known_findings.json"))
 	total, proved, trivial, failed, unknown := rep.Counts()
 	violations := 0
